@@ -64,6 +64,14 @@ def paths_from_entry_states(ctx, f, B):
         out += [o for o in absx.Interp(f, B, result_combinators=True).run(root=sem.entry(B), heap={place: val}) if o.kind in ('val', 'ret', 'div', 'loop')]
     return out
 
+def f_field_ty(f, name):
+    st = f.items.get('ldap3::search::SearchStream') or {}
+    for v in st.get('variants', []):
+        for fl in v['fields']:
+            if fl['name'] == name:
+                return fl['ty']
+    return None
+
 def run(ctx):
     f = ctx.facts
     C = anchors.Conn(f)
@@ -271,7 +279,10 @@ def run(ctx):
         for o in outs:
             if o.kind in ('ret', 'val') and sem.has(o.val, lambda x: x[0] == 'ctor' and x[1] == 'LdapError::EndOfStream'):
                 n_eos += 1
-                ctx.add('L3.end-of-stream-only-when-channel-closed', p, loc(B.root), sem.failed(o, recv_result),
+                # ... or there is no channel any more: the path found the receiver field empty (nothing can have been delivered that
+                # was not handed out)
+                no_channel = absx.pc_variant(o.st.pc, lambda t: t[0] == 'field' and t[1] == ('param', 'self') and 'Receiver<' in (f_field_ty(f, t[2]) or ''), 'None') is True
+                ctx.add('L3.end-of-stream-only-when-channel-closed', p, loc(B.root), sem.failed(o, recv_result) or no_channel,
                         'the stream reports EndOfStream on a path where the item channel did not itself yield None: delivered items can be lost')
         items = [o for o in outs if o.kind in ('ret', 'val') and sem.is_ok_result(o.val) and sem.has(o.val, lambda x: x[0] == 'ctor' and x[1].endswith('ResultEntry'))]
         for o in items:
